@@ -141,6 +141,11 @@ def check(cfg, lines):
             if what in ("cputg", "cgetg"):
                 # a granted request withdrawn in this instant: remembered until the node's next movement
                 withdrawn.append((t, ed, what))
+            elif what == "pal":
+                on = sum(1 for i_, pl in place.items() if pl == ("pal", nq))
+                if on != nfree:
+                    for pp in ("C03", "C16"):
+                        v(pp, "pallet %d is put on edge %d at %s carrying %d item(s); %d item(s) were packed on it and not unpacked since" % (nq, ed, t, nfree, on))
             elif what == "droproom":
                 for pp in ("C09", "C10", "C13"):
                     v(pp, "node %d dropped an item at %s although its conveyor out-edge %d would have admitted an entry at that instant "
@@ -473,7 +478,8 @@ def check(cfg, lines):
                 v("C12", "conveyor %d: item %d entered at %s and was taken at %s, before the belt travel time %s" % (ed, ia, ta, outs_[0], ec["cap"]))
                 break
         if occ_hi[ed][1] > ec["cap"]:
-            v("C12", "conveyor %d held %d items at %s, its capacity is %d" % (ed, occ_hi[ed][1], occ_hi[ed][0], ec["cap"]))
+            for pp in ("C12", "C01"):
+                v(pp, "conveyor %d held %d items at %s, its capacity is %d" % (ed, occ_hi[ed][1], occ_hi[ed][0], ec["cap"]))
     # ---------------- C03 / C02: what each edge really holds at the end is what the movements say it holds
     for ed, d in edges.items():
         if "ready" not in d or crash:
